@@ -9,14 +9,15 @@ EXTENDS WordHistory, Json
 
 Trace == ndJsonDeserialize("trace.ndjson")
 
-VARIABLE l
-tvars == <<hvars, l>>
+VARIABLES l,
+          seen      \* what this reader showed so far: set of [call, eh, ef]
+tvars == <<hvars, l, seen>>
 
 Ev == Trace[l]
 
 NoDoc == [fmt |-> "docx", body |-> <<>>, hdr |-> 0, ftr |-> 0, sheet |-> <<>>]
 
-TraceInit == l = 1 /\ doc = NoDoc /\ pos = 0 /\ out = <<>> /\ held = <<>> /\ hist = <<>>
+TraceInit == l = 1 /\ doc = NoDoc /\ pos = 0 /\ out = <<>> /\ held = <<>> /\ xheld = "" /\ hist = <<>> /\ seen = {}
 
 TraceOpen ==
     /\ l <= Len(Trace) /\ Ev.event = "Open" /\ l' = l + 1
@@ -24,14 +25,24 @@ TraceOpen ==
     /\ IsDoc(doc')
     \* (documents whose style sheet leaves a kind open are not used for histories)
     /\ \A i \in 1..Len(doc'.body) : Item(doc', i).k # "PH"
-    /\ held' = SrcLevels(doc') /\ hist' = <<>>
+    /\ held' = SrcLevels(doc') /\ xheld' = "" /\ hist' = <<>> /\ seen' = {}
     /\ UNCHANGED <<pos, out>>
 
 TraceCall ==
     /\ l <= Len(Trace) /\ Ev.event = "Call" /\ l' = l + 1
     /\ Ev.op \in {"text", "md", "mdopt", "rag", "doc", "tables"}
-    /\ DoCall([op |-> Ev.op, off |-> Ev.off, mx |-> Ev.mx])
+    /\ Ev.xo \in {"none", "h", "f", "hf"}
+    /\ DoCall([op |-> Ev.op, off |-> Ev.off, mx |-> Ev.mx, xo |-> Ev.xo])
     /\ Ev.levels = hist'[Len(hist')].levels
+    \* body paragraphs equal to a header / footer line: all shown unless the call's own options
+    \* cover them (then the reader may filter them); never more than the body has
+    /\ LET h == hist'[Len(hist')] IN
+         /\ Ev.eh <= NEcho(doc, "eh") /\ (h.eh = NEcho(doc, "eh") => Ev.eh = h.eh)
+         /\ Ev.ef <= NEcho(doc, "ef") /\ (h.ef = NEcho(doc, "ef") => Ev.ef = h.ef)
+    \* and the same call repeats its result on this reader
+    /\ LET c == [op |-> Ev.op, off |-> Ev.off, mx |-> Ev.mx, xo |-> Ev.xo] IN
+         /\ \A x \in seen : x.call = c => (x.eh = Ev.eh /\ x.ef = Ev.ef)
+         /\ seen' = seen \cup {[call |-> c, eh |-> Ev.eh, ef |-> Ev.ef]}
 
 TraceNext == TraceOpen \/ TraceCall
 
